@@ -46,6 +46,9 @@ def sources(tier, seed, ctx):
             acts = [{'a': 'replace_inputs', 'T': sel[:cut], 'F': sel[cut:]}]
         else:
             acts = [{'a': 'remove_gate', 'l': r.choice(labels)}]
+        if n % 3 == 1:
+            # the circuit was deep-copied / pickled before the rewrite (a copy is a circuit like any other)
+            acts = [{'a': 'copy', 'how': ['deep', 'pickle'][(n // 3) % 2]}] + acts
         srcs.append({'k': 'hist', 'init': init, 'acts': acts, 'from': 'universe'})
     note.append(f'{min(take, len(nets))} universe circuits x one rewrite')
     nrand = 2500 if tier == 'quick' else 30000
